@@ -1,15 +1,171 @@
-import ParolModel.Proofs.LaBuild
-/-! # C07 — Lookahead automata encode exactly the lookahead sets -/
+import ParolModel.Proofs.LaMain
+/-! # C07 — Lookahead automata encode exactly the lookahead sets
+
+Property text: *For every non-terminal of an accepted LL(k) grammar, the compiled (minimized)
+lookahead automaton, read as a deterministic automaton from its start state, reaches a state
+predicting production p on a token string w exactly when w is one of p's lookahead strings.
+Minimization never changes which production any token string predicts.*
+
+Formalisation. The lookahead strings of the productions of one non-terminal are a list
+`sets : List (Nat × List Tuple)` (production number, its k-tuples; the ε-tuple is `[]`). For an
+accepted LL(k) grammar they are non-empty, pairwise disjoint and prefix-free (`SetsOk`; tuples
+have length k or end in the end-of-input terminal, which nothing can follow). "Read as a
+deterministic automaton" is C08's reference run `runRef`; `setsLookup sets w` is the production
+whose tuple set contains `w`. The model (`Model/LaBuild.lean`) mirrors, step by step,
+`LookaheadDFA::from_k_tuples` (`fromKTuples`), `unite` (`unite true`; `unite false` is the code
+before the repair of its `k`), the loop of `calculate_lookahead_dfas` for one non-terminal
+(`uniteAll`), `CompiledDFA::from_lookahead_dfa` (`compileDfa` = `compileRaw` then `minimizeC`, i.e.
+`AdjacencyList::minimize`, `renumber_states`, `as_compiled_dfa`). The hash-map iteration orders of
+`group_by` are the explicit parameter `ch`; every theorem below holds for all `ch`. The model
+functions return `none`/`.error` where the Rust code would panic or report a conflict; the theorems
+are about the successful results (that the model succeeds is shown on examples here and observed on
+every explored case by the differential tie). -/
 namespace ParolModel
 
-/-- The tuple sets of non-terminal `A` of `S: A; A: ; A: B "b"; A: C "c"; B: "a"; C: "a";`. -/
+/-- **Tries** (`from_k_tuples`): *"reaches a state predicting production p on a token string w
+    exactly when w is one of p's lookahead strings"* for the automaton of a single production:
+    the compiled, not yet minimised trie of a non-empty tuple set `S` predicts `p` on exactly the
+    members of `S`, and nothing else. -/
+theorem trie_accepts_iff_tuple (k : Nat) (S : List Tuple) (p : Nat) (hS : S ≠ []) (w : List Nat) :
+    runRef (compileRaw (fromKTuples k S p)) 0 (compileRaw (fromKTuples k S p)).prod0 w =
+      if w ∈ S then some (p : Int) else none := by
+  obtain ⟨l, h, _, _⟩ := fromKTuples_inv k S p hS
+  rw [h.runRef_eq (by intro w; split <;> omega) w]
+  unfold accOf
+  by_cases hw : w ∈ S
+  · simp only [hw, if_true]
+    have : (p : Int) > -1 := by omega
+    simp [this]
+  · simp [hw]
+
+/-- **`unite`**: uniting the trie of a further production into the automaton built for the
+    productions `P` yields an automaton that predicts, for every token string, the production whose
+    tuple set contains it — provided the sets are non-empty, pairwise disjoint and prefix-free. -/
+theorem unite_accepts (k : Nat) {P : List (Nat × List Tuple)} {p : Nat} {S : List Tuple} {d0 d d' : LDfa}
+    (ok : SetsOk (P ++ [(p, S)])) (hd : uniteAll true k P = some (.ok d0)) (hd0 : d = d0)
+    (h : unite true d (fromKTuples k S p) = .ok d') (w : List Nat) :
+    runRef (compileRaw d') 0 (compileRaw d').prod0 w = setsLookup (P ++ [(p, S)]) w := by
+  subst hd0
+  have okP : SetsOk P := ok.subset (fun q hq => List.mem_append_left _ hq)
+  have hP : P ≠ [] := by intro he; subst he; simp [uniteAll] at hd
+  exact (built_step k ok hP (built_all okP hd) h).runRef w
+
+/-- Without prefix-freeness `unite_accepts` is false: `coin_state` is unconditional, so the
+    accepting mark of `5` (production 0) is erased when `5 6` (production 1) is united into it. -/
+theorem unite_not_prefix_free_counterexample :
+    (match uniteAll true 2 [(0, [[5]]), (1, [[5, 6]])] with
+     | some (.ok d) => runRef (compileRaw d) 0 (compileRaw d).prod0 [5]
+     | _ => some 99) = none ∧ setsLookup [(0, [[5]]), (1, [[5, 6]])] [5] = some 0 := by decide
+
+/-- **Minimisation preserves every prediction** (*"Minimization never changes which production any
+    token string predicts"*), for every iteration order `ch`, on automata whose accepting states
+    are leaves (`CompiledOk`). -/
+theorem minimize_preserves_run {c c' : LaDfa} {ch : List Nat} (hc : CompiledOk c)
+    (h : minimizeC c ch = some c') (w : List Nat) :
+    runRef c' 0 c'.prod0 w = runRef c 0 c.prod0 w := by
+  obtain ⟨hs, _, hrun⟩ := minimizeC_spec hc h
+  exact runRef_eq_of_RunC_iff hs hc.sorted w (hrun w)
+
+/-- **Well-formedness of the output** (the precondition `sortedTrans` of C08's theorems): the
+    minimised automaton's transition list is strictly sorted by (from-state, terminal), hence
+    deterministic; `k` is unchanged. -/
+theorem compiled_wf {c c' : LaDfa} {ch : List Nat} (hc : CompiledOk c) (h : minimizeC c ch = some c') :
+    sortedTrans c'.trans = true ∧ c'.k = c.k := by
+  obtain ⟨hs, hk, _⟩ := minimizeC_spec hc h
+  exact ⟨hs, hk⟩
+
+/-- The un-minimised automaton of non-empty, pairwise disjoint, prefix-free tuple sets satisfies
+    the hypotheses of the two theorems above. -/
+theorem compiledOk_of_sets {k : Nat} {sets : List (Nat × List Tuple)} {d : LDfa} (ok : SetsOk sets)
+    (hd : uniteAll true k sets = some (.ok d)) : CompiledOk (compileRaw d) :=
+  (built_all ok hd).compiledOk ok
+
+/-- **C07, main statement**: the compiled, minimised automaton of a non-terminal predicts `p` on
+    `w` exactly when `w` is one of `p`'s lookahead strings (for all `w`, not only up to depth `k`),
+    and it is strictly sorted. -/
+theorem compiled_accepts_iff_tuple {k : Nat} {sets : List (Nat × List Tuple)} {d : LDfa} {c : LaDfa}
+    {ch : List Nat} (ok : SetsOk sets) (hd : uniteAll true k sets = some (.ok d))
+    (hc : compileDfa d ch = some c) :
+    sortedTrans c.trans = true ∧ ∀ w, runRef c 0 c.prod0 w = setsLookup sets w := by
+  have hb := built_all ok hd
+  have hok := hb.compiledOk ok
+  refine ⟨(compiled_wf hok hc).1, ?_⟩
+  intro w
+  rw [minimize_preserves_run hok hc w, hb.runRef w]
+
+/-- The executable test `setsOk` used by the oracle handlers is sound for `SetsOk`. -/
+theorem setsOk_implies_SetsOk {sets : List (Nat × List Tuple)} (h : setsOk sets = true) : SetsOk sets :=
+  setsOk_sound h
+
+/-- **The `k` field covers every lookahead string** (so that C08's `eval`, which reads `k` tokens,
+    reaches the accepting state): for all tuple sets, without any hypothesis. This is the statement
+    that was false before the repair of `unite`. -/
+theorem compiled_k_ge_tuple_length {k : Nat} {sets : List (Nat × List Tuple)} {d : LDfa} {c : LaDfa}
+    {ch : List Nat} (hd : uniteAll true k sets = some (.ok d)) (hc : compileDfa d ch = some c) :
+    ∀ q ∈ sets, ∀ t ∈ q.2, t.length ≤ c.k := by
+  intro q hq t ht
+  have h1 := uniteAll_k hd q hq t ht
+  have h2 : c.k = d.k := minimizeC_k hc
+  omega
+
+/-- The tuple sets of non-terminal `A` of `S: A; A: ; A: B "b"; A: C "c"; B: "a"; C: "a";`
+    (`$` = 0, `a` = 7, `b` = 5, `c` = 6). -/
 def f19Sets : List (Nat × List Tuple) := [(1, [[0]]), (2, [[7, 5]]), (3, [[7, 6]])]
 
-/-- Before the repair of `unite` the compiled automaton of `A` had `k = 1` although the tuple
-    `7 5` has length 2. -/
+/-- Before the repair (`unite false`: the result keeps `self.k`) the compiled automaton of `A` had
+    `k = 1` although the lookahead string `7 5` has length 2, and C08's `eval` then reports a
+    prediction error on it. -/
 theorem unite_k_unfixed_counterexample :
     (match uniteAll false 2 f19Sets with
-     | some (.ok d) => (compileDfa d []).map (·.k)
-     | _ => none) = some 1 := by decide
+     | some (.ok d) => (compileDfa d []).map (fun c => (c.k, eval c true [7, 5]))
+     | _ => none) = some (1, EvalRes.predictError) := by decide
+
+/-- With the repair the same automaton has `k = 2` and predicts production 2. -/
+theorem unite_k_fixed_example :
+    (match uniteAll true 2 f19Sets with
+     | some (.ok d) => (compileDfa d []).map (fun c => (c.k, eval c true [7, 5]))
+     | _ => none) = some (2, EvalRes.ok 2) := by decide
+
+/-- **Order independence (C24 part)**, full statement: the minimised automaton, including its
+    state numbering, does not depend on the hash-map iteration orders. Not proved in this form (it
+    needs confluence of the merging of states with equal neighbour lists together with the canonical
+    renumbering); it is checked on every explored automaton by running the model under several
+    choice streams and the real code repeatedly (request `ord`). -/
+def MinimizeOrderIndep : Prop :=
+  ∀ (c : LaDfa), CompiledOk c → ∀ ch1 ch2 : List Nat, minimizeC c ch1 = minimizeC c ch2
+
+/-- Proved part: whatever the iteration orders, the results predict the same production on every
+    token string, have the same `k` and are strictly sorted. (What may still differ is the numbering
+    of the states and which of several equivalent states survives — not the predictions.) -/
+theorem minimize_order_indep_partial {c c1 c2 : LaDfa} {ch1 ch2 : List Nat} (hc : CompiledOk c)
+    (h1 : minimizeC c ch1 = some c1) (h2 : minimizeC c ch2 = some c2) :
+    (∀ w, runRef c1 0 c1.prod0 w = runRef c2 0 c2.prod0 w) ∧ c1.k = c2.k ∧
+      sortedTrans c1.trans = true ∧ sortedTrans c2.trans = true := by
+  refine ⟨?_, ?_, (compiled_wf hc h1).1, (compiled_wf hc h2).1⟩
+  · intro w
+    rw [minimize_preserves_run hc h1 w, minimize_preserves_run hc h2 w]
+  · rw [(compiled_wf hc h1).2, (compiled_wf hc h2).2]
+
+/-! Non-vacuity: the hypotheses are satisfiable and the model succeeds. `exSets` are the tuple
+sets of `ItemsList`-like productions: 4 ↦ {`5 6`}, 5 ↦ {`0`, `5 0`}. -/
+def exSets : List (Nat × List Tuple) := [(4, [[5, 6]]), (5, [[0], [5, 0]])]
+
+example : setsOk exSets = true := by decide
+example : SetsOk exSets := setsOk_sound (by decide)
+example : (match uniteAll true 2 exSets with
+    | some (.ok d) => compileDfa d []
+    | _ => none) = some ⟨-1, [⟨0, 0, 3, 5⟩, ⟨0, 5, 1, -1⟩, ⟨1, 0, 3, 5⟩, ⟨1, 6, 2, 4⟩], 2⟩ := by decide
+/-- The two accepting leaves of production 5 were merged (state 3), under another order too. -/
+example : (match uniteAll true 2 exSets with
+    | some (.ok d) => compileDfa d [1, 1, 1]
+    | _ => none) = some ⟨-1, [⟨0, 0, 3, 5⟩, ⟨0, 5, 1, -1⟩, ⟨1, 0, 3, 5⟩, ⟨1, 6, 2, 4⟩], 2⟩ := by decide
+example : (match uniteAll true 2 exSets with
+    | some (.ok d) => (compileDfa d []).map (fun c => [runRef c 0 c.prod0 [5, 6], runRef c 0 c.prod0 [5, 0],
+        runRef c 0 c.prod0 [0], runRef c 0 c.prod0 [5], runRef c 0 c.prod0 [6, 5]])
+    | _ => none) = some [some 4, some 5, some 5, none, none] := by decide
+/-- A conflict (the same tuple under two productions) is reported. -/
+example : (match uniteAll true 1 [(1, [[5]]), (2, [[5]])] with
+    | some (.error .conflict) => true
+    | _ => false) = true := by decide
 
 end ParolModel
